@@ -19,6 +19,7 @@ from sa.symex import Interp, flat_guards
 from sa.rowids import Analyzer, Facts, U32, is_call, method, recv
 
 RULES = {
+    "R-C07-j": "column_stack refuses inputs of different row counts - all of them, without exemption: the result takes its row count from one input, and its row ids are below that count only if every input has it",
     "R-C07-i": "an index loaded from an INDX file has tuple-of-Python-int keys, a Python-int common value and uint32 row arrays (imported from the reader analysis, R-C10-d): a NumPy scalar common value ends up inside a key at the next shift_common()",
     "R-C07-h": "operations write only the receiver's own storage: an operand's row-id arrays are never modified in place (they would leave that index's row range) - the frame analysis shared with C06 rule a and C17",
     "R-C07-g": "optional category parameters (a requested common value, a column) are tested with `is None`, never by truth value: shift_common(0) that silently keeps the old common leaves column_stack with entries listed under the common value (imported from C06 rule m)",
@@ -678,6 +679,29 @@ def main(tier):
             k10 += 1
             rep.add("R-C07-i", where10, "[R-C10-d] %s" % cons10, status10, detail10, True, wit10)
     rep.floor("R-C07-i", 4, k10)
+    # R-C07-j: column_stack gives the result the row count of ONE input, so "row ids below the row count" holds for the
+    # stacked index only if every input has that row count: the agreement test must cover all inputs
+    import ast as _ast
+    fcs = prog.func("iindexes", "column_stack")
+    tests = []
+    for st in _ast.walk(fcs.node):
+        if isinstance(st, _ast.If) and any(isinstance(x, _ast.Raise) for b in st.body for x in _ast.walk(b)):
+            for c in _ast.walk(st.test):
+                if isinstance(c, (_ast.SetComp, _ast.GeneratorExp, _ast.ListComp)) and any(isinstance(n, _ast.Attribute) and n.attr == "shape" for n in _ast.walk(c.elt)) \
+                        and any(isinstance(n, _ast.Subscript) and isinstance(n.slice, _ast.Constant) and n.slice.value == 0 for n in _ast.walk(c.elt)):
+                    tests.append((st, c))
+    cons_j = "column_stack: the equal-row-count test covers every input"
+    if not tests:
+        rep.undecided("R-C07-j", fcs.fq, cons_j, "no `raise` guarded by a comparison of the inputs' shape[0] found (anchor moved)")
+    else:
+        st, c = tests[0]
+        filt = [i for g in c.generators for i in g.ifs]
+        if filt:
+            rep.violated("R-C07-j", "%s@%d" % (fcs.fq, st.lineno), cons_j,
+                         "inputs with `%s` false are exempt from the row-count agreement, but the stacked index takes its row count from one input (iindexes[0].shape[0]): with an exempt input first the result reports 0 rows while its entries list the other inputs' row ids"
+                         % _ast.unparse(filt[0])[:50], witness={"inputs": "column_stack([iindex({}, 0, (0,)), from_array([1, 0, 0, 1, 0])]): shape (0, 2), entry (1, 1) -> rows [0, 3]"})
+        else:
+            rep.proved("R-C07-j", "%s@%d" % (fcs.fq, st.lineno), cons_j, _ast.unparse(st.test)[:70])
     rep.analysed["roots"] = [f.fq for f in roots]
     rep.analysed["store_sites"] = stats["sites"]
     rep.floor("R-C07-a", 30, stats["sites"])
